@@ -246,15 +246,20 @@ MacRomanHigh ==
 
 MacToUni(b) == IF b < 128 THEN b ELSE MacRomanHigh[b - 127]
 \* Dev_MacCurrency: code 0xDB was the currency sign U+00A4 before Mac OS 8.5 and is the euro
-\* sign U+20AC since; both tables are in use.
+\* sign U+20AC since; both tables are in use, an implementation knows one of the two characters.
 Dev_MacCurrency == {<<219, 164>>, <<219, 8364>>}
+\* Dev_MacRomanPdfSubset: the fifteen Mac OS Roman codes that the PostScript / PDF
+\* MacRomanEncoding vector leaves out (mathematical symbols taken from the Symbol font, the
+\* Apple logo).  allsorts' table is that vector; these characters may be unmapped.
+Dev_MacRomanPdfSubset == {173, 176, 178, 179, 182, 183, 184, 185, 186, 189, 195, 197, 198, 215, 240}
 MacRomanPairs == {<<b, MacToUni(b)>> : b \in 0 .. 255} \cup Dev_MacCurrency      \* <<code, char>>
 MacRomanChars == {p[2] : p \in MacRomanPairs}
+MacOptionalChars == {164, 8364} \cup {MacToUni(b) : b \in Dev_MacRomanPdfSubset}
 UniToMac(ch)  == (CHOOSE p \in MacRomanPairs : p[2] = ch)[1]
 
 \* A few Big5 characters (code, Unicode) from the Big5 standard, as fixed points for the dispatch.
 Big5Sample == {<<65, 65>>, <<126, 126>>, <<42606, 22909>>, <<41824, 949>>, <<41283, 12290>>,
-               <<42048, 19968>>, <<41280, 12288>>, <<63957, 40856>>}
+               <<42048, 19968>>, <<41280, 12288>>, <<63957, 40856>>, <<66, 66>>}
 Big5SampleChars == {p[2] : p \in Big5Sample}
 NotBig5Chars    == {2350, 1114111, 196}     \* Devanagari MA, U+10FFFF, A dieresis
 UniToBig5(ch)   == (CHOOSE p \in Big5Sample : p[2] = ch)[1]
@@ -277,7 +282,8 @@ FontAccept(t, enc, first, ch) ==
   CASE enc = "Unicode"    -> Accept(t, ch)
     [] enc = "Symbol"     -> AcceptCode(t, SymbolCode(ch, first))
     [] enc = "AppleRoman" ->
-         IF ch \in MacRomanChars THEN UNION {Accept(t, p[1]) : p \in {q \in MacRomanPairs : q[2] = ch}}
+         IF ch \in MacRomanChars
+         THEN Accept(t, UniToMac(ch)) \cup (IF ch \in MacOptionalChars THEN {0} ELSE {})
          ELSE IF ch >= 61440 /\ ch <= 61695 THEN {0} \cup AcceptCode(t, SymbolCode(ch, first))
          ELSE {0}
     [] enc = "Big5"       ->
@@ -333,8 +339,22 @@ MutualInverses(enc, dec) == enc = dec
 \* Conformance of the Mac Roman encoder to the table above (either currency variant).
 MacEncDiff(enc) ==
   [wrong   |-> {p \in enc : p \notin MacRomanPairs},
-   missing |-> {p \in MacRomanPairs \ Dev_MacCurrency : p \notin enc}
+   missing |-> {p \in MacRomanPairs \ Dev_MacCurrency : p \notin enc /\ p[1] \notin Dev_MacRomanPdfSubset}
                \cup (IF Dev_MacCurrency \cap enc = {} THEN {<<219, 0>>} ELSE {})]
+
+\* Big5 codes: a single byte below 0x80, or lead byte 0x81..0xFE followed by 0x40..0x7E / 0xA1..0xFE.
+ValidBig5Code(b) ==
+  \/ b >= 0 /\ b < 128
+  \/ LET hi == b \div 256  lo == b % 256 IN
+     hi >= 129 /\ hi <= 254 /\ ((lo >= 64 /\ lo <= 126) \/ (lo >= 161 /\ lo <= 254))
+\* Dev_Big5DecodeSuperset: Big5 contains duplicate characters and the WHATWG index allsorts uses
+\* decodes the HKSCS area without encoding to it, so the decoder may accept valid double-byte
+\* codes the encoder never produces.  Everything the encoder produces must decode back, and the
+\* decoder must not accept what is not a Big5 code.
+Big5Diff(enc, dec) ==
+  [encOnly |-> enc \ dec,
+   decOnly |-> {p \in dec \ enc : ~(ValidBig5Code(p[1]) /\ p[1] >= 256)},
+   missing |-> {p \in Big5Sample : p \notin enc /\ \E q \in enc \cup dec : q[1] \div 256 = p[1] \div 256}]
 
 ---------------------------------------------------------------------------
 \* Design invariants (checked by MC_Cmap on every generated table).
@@ -359,5 +379,6 @@ PreferenceOrder(recs) ==
 MacRomanInverse ==
   /\ \A p \in MacRomanPairs : p[2] \in MacRomanChars
   /\ \A ch \in MacRomanChars \ {164, 8364} : MacToUni(UniToMac(ch)) = ch
+  /\ UniToMac(164) = 219 /\ UniToMac(8364) = 219
   /\ Cardinality(MacRomanChars) = 257
 =============================================================================
